@@ -9,7 +9,7 @@ looks at frames of `experimaestro/run.py`; at the K-th line event of that file i
 
 * effect taps, installed from outside on library entry points (no change to /repo):
   `atexit.register/unregister`, `signal.signal`, `fasteners.InterProcessLock.acquire/release`,
-  `Path.unlink/touch/write_text` on `.done/.failed/.pid` files;
+  `Path.unlink/touch/write_text/is_file` on `.done/.failed/.pid` files;
 * at the kill: function name, line, whether the line is inside the body of the `try` statement of
   `TaskRunner.run` (from the `ast` of the current source), `self.cleaned` / `self.started` of the
   `TaskRunner` found on the stack, and the number of the line event.
@@ -98,7 +98,15 @@ fasteners.InterProcessLock.acquire, fasteners.InterProcessLock.release = _acquir
 from pathlib import Path  # noqa: E402
 
 _MARK = (".done", ".failed", ".pid")
-_unlink, _touch, _wtext = Path.unlink, Path.touch, Path.write_text
+_unlink, _touch, _wtext, _isfile = Path.unlink, Path.touch, Path.write_text, Path.is_file
+
+
+def _p_isfile(self, *a, **kw):
+    r = _isfile(self, *a, **kw)
+    if self.suffix in _MARK:
+        emit(ev="is_file", name=self.suffix, res=bool(r))
+    return r
+
 
 
 def _p_unlink(self, *a, **kw):
@@ -122,7 +130,7 @@ def _p_wtext(self, data, *a, **kw):
     return r
 
 
-Path.unlink, Path.touch, Path.write_text = _p_unlink, _p_touch, _p_wtext
+Path.unlink, Path.touch, Path.write_text, Path.is_file = _p_unlink, _p_touch, _p_wtext, _p_isfile
 
 import experimaestro.run as R  # noqa: E402
 
